@@ -143,15 +143,21 @@ def _expect_init(S, S0, R, L):
 def _wrap_init(orig):
     def __init__(self, S=None, S0=None, R=None, L=None):
         # materialise iterables so that the oracle and the code see the same
+        # one-shot iterators are split with itertools.tee: the constructor
+        # still receives a one-shot iterator (its behaviour may depend on
+        # that), the oracle reads the other branch
         mat = []
+        real = []
         for a in (S, S0, R):
-            if a is not None and not isinstance(a, (list, tuple, set,
-                                                    frozenset, dict)):
+            if a is not None and hasattr(a, '__next__'):
                 try:
-                    a = list(a)
+                    a, mine = itertools.tee(a)
+                    mat.append(list(mine))
                 except Exception:
-                    pass
-            mat.append(a)
+                    mat.append(a)
+            else:
+                mat.append(a)
+            real.append(a)
         S_, S0_, R_ = mat
         site = mon.caller_site(2)
         exp = None
@@ -162,7 +168,7 @@ def _wrap_init(orig):
             exp = None
         err = None
         try:
-            orig(self, S_, S0_, R_, L)
+            orig(self, real[0], real[1], real[2], L)
         except BaseException as e:
             err = e
         if exp is not None:
@@ -387,6 +393,31 @@ def nonstate_probe(K):
                               note='wrong exception type')
 
 
+def state_independence(K):
+    """Every state has its OWN label set: editing the labels of one state
+    (the way CTL* model checking itself does on its working copy) leaves the
+    labels of every other state alone."""
+    sts = list(K._next.keys())
+    if len(sts) < 2:
+        return
+    LOG.hit('c14.state_independence')
+    for s in sts:
+        l = K.labels(s)
+        if not isinstance(l, set):
+            continue             # immutable label sets cannot interfere
+        others = {t: set(K.labels(t)) for t in sts if t != s}
+        l.add('__vmon_probe__')
+        changed = [t for t in others if set(K.labels(t)) != others[t]]
+        l.discard('__vmon_probe__')
+        if changed:
+            LOG.violation('c14.init', PROP, {'K': _kr(K), 'edited': repr(s)},
+                          'labels of %s changed too' % sorted(map(repr,
+                                                                  changed)),
+                          'only the edited state changes',
+                          note='two states share one label set')
+            return
+
+
 def relations(n):
     pairs = [(i, j) for i in range(n) for j in range(n)]
     for m in range(1 << len(pairs)):
@@ -442,6 +473,7 @@ def drive(n, R, k, ctx, r):
         except Exception:
             continue
         nonstate_probe(K)
+        state_independence(K)
         C = K.clone()
         # independence of the clone
         before = _kr(K)
